@@ -576,6 +576,37 @@ func runSched(sc Scenario, drv *lib.Driver) (out Outcome) {
 			break
 		}
 	}
+	if !agree && model != "" {
+		// directed search for a failing input: the model no longer explains the code here, so finish this very
+		// schedule without the model (cancel everything, release everybody) and evaluate the property directly:
+		// every goroutine of the cancelled listeners must be gone
+		for guard := 0; guard < 200; guard++ {
+			var next string
+			for _, op := range c.applicable(obs) {
+				k := strings.Fields(op)[0]
+				if k == "cancel" || k == "S" || k == "W" || k == "R" {
+					next = op
+					if k == "cancel" {
+						break
+					}
+				}
+			}
+			if next == "" {
+				break
+			}
+			c.apply(next)
+			done = append(done, next)
+			obs, _ = c.settle(200 * time.Millisecond)
+		}
+		o.eval(monShutdown, "goroutines-baseline/bus-schedule-after-disagreement", true)
+		if ok, left, _ := waitBaseline(bound); !ok {
+			o.violate(monShutdown, "C10/bus/goroutine-leak", "goroutines of cancelled listeners are still alive after every listener was cancelled and every goroutine released",
+				"no goroutine inside internal/minibus", censusSummary(left)+" after "+strings.Join(done, " / "))
+		}
+		if strings.Contains(obs, "=P") {
+			o.violate(monShutdown, "C10/bus/Send/panic", "Bus.Send panicked", "no panic", obs)
+		}
+	}
 	if agree {
 		model, code = "ok "+obs, "ok "+obs
 		// the model ends with every watcher done and every sender idle: the census must be empty
